@@ -686,7 +686,7 @@ class Evaluator:
             return Num(sp.Integer(v))
         if isinstance(v, float):
             return Num(sp.Rational(repr(v)) if "e" not in repr(v) and "inf" not in repr(v) and "nan" not in repr(v)
-                       else sp.nsimplify(repr(v), rational=True))
+                       else sp.nsimplify(repr(v), rational=True), isfloat=True)
         if isinstance(v, complex):
             re_, im_ = sp.nsimplify(v.real, rational=True), sp.nsimplify(v.imag, rational=True)
             return Num(re_ + sp.I * im_)
@@ -945,6 +945,8 @@ class Evaluator:
             return a is b
         if isinstance(a, ObjV) != isinstance(b, ObjV):
             return False          # an object is never identical to a number / container
+        if isinstance(a, (BoundBuiltin, FuncV, PyFuncV)) != isinstance(b, (BoundBuiltin, FuncV, PyFuncV)):
+            return False          # a bound method / function is never identical to a value of another kind
         if isinstance(a, ObjV) and isinstance(b, ObjV):
             return False          # distinct abstract objects (a is b was handled above)
         return None
@@ -1137,6 +1139,8 @@ class Evaluator:
             return self.apply(FuncV(m, bound=obj), [idx], {}, fr if fr is not None and fr.ev is not None else Frame(self, None, None, {}, 0), node)
         if isinstance(obj, ExtV):
             return self.ext.ext_getitem(self, obj, idx, fr, node)
+        if isinstance(obj, OpaqueV) and obj.what == "array0d" and isinstance(idx, TupleV) and not idx.items:
+            return obj.payload
         if isinstance(obj, Num):
             return self.ext.num_getitem(self, obj, idx, fr, node)
         if isinstance(obj, self.ext.NdArr):
